@@ -147,6 +147,7 @@ fn real_main() {
                 ctx.line_no += 1;
                 guard::CUR_LINE.store(ctx.line_no, std::sync::atomic::Ordering::Relaxed);
                 ctx.line = line.clone();
+                core_ops::poison();
                 let a = eval_line(&mut ctx, &line);
                 if a.starts_with("FAIL") {
                     ctx.oracle_fail(a.clone());
